@@ -25,6 +25,11 @@ CLAIMS = {
   text="Structural necessary conditions of history- and chunking-independence: every Lexer/Parser field that a lexing/parsing routine writes and any routine reads is re-initialised by Lexer.Reset / Parser.Reset / Parser.ResetAddNewInput (siblings agree, parser resets reset the lexer, new input is queued after the reset); lexer residue is written only by Lexer methods and queuing input touches only the stream queue; each of the six descent routines, on TokenEnd, stores ErrMoreInputNeeded, yields and peeks again; every in-literal lexer state is announced by a begin token or tested on the end-of-text path; the top-level end-of-text path flushes the pending atom and parses it; GetNextToken removes exactly one token and PeekNextToken none. Does not decide equality of pieced and whole parses on actual texts.",
   note="Trusts go/ssa. Exemptions (tables/C13.tsv): the three synthetic `hash` token prepends in ParseExpression; the recursion counter balanced by deferred decrements.",
   ref="DESIGN.md §3 C13, Appendix B"),
+ "C05": dict(
+  technique="error-use dataflow over go/ssa (dropped / overwritten-on-a-path / not propagated), capture-restore bracket and truncate-before-error-return path checks",
+  text="Structural necessary conditions of error containment: in every function of the interpreter package each error returned by a repository function is tested, returned or passed on, is not overwritten or abandoned on any path to a success return, and the non-nil branch does not return nil; every function that captures the VM control state restores it before each possibly-non-nil error return after the capture, and every caller of CallFunction has such a bracket, is an instruction's Execute (inside Run's bracket) or is tabled; CallResolved truncates the data stack before every error return after argument preparation; LoadExpressions appends compiled code only on the success branch; Run parks pc after restoring; every ParseTokens caller resets the parser first. Does not decide equivalence with a twin interpreter after a failure, nor compile-time side effects of a failed load.",
+  note="Trusts go/ssa. Accepted idioms are in the checker (callee that only signals io.EOF; GetNextToken after a checked peek); 21 keyed exemptions with reasons in tables/C05.tsv.",
+  ref="DESIGN.md §3 C05"),
 }
 NA_DEFAULT="rules not built yet (build in progress; see DESIGN.md §7)"
 NA = {}
